@@ -149,16 +149,34 @@ _VAM_CACHE = {}
 ALLOW_LEGACY = [True]     # dict-shaped bounding boxes only against code that accepts decoded tuples as well
 
 
-def vam_key(sender, pos, info=None, opc=None, legacy=False):
-    """info = None | (cid|None, card, 'a'|'c'|'o');  opc = None | (join_cid|None, leave_cid|None, breakup_code|None)"""
-    return (sender, tuple(pos), tuple(info) if info else None, tuple(opc) if opc else None, bool(legacy))
+def _freeze(x):
+    return tuple(_freeze(y) for y in x) if isinstance(x, (list, tuple)) else x
+
+
+def vam_key(sender, pos, info=None, opc=None, legacy=False, extra=None):
+    """info = None | (cid|None, card, 'a'|'c'|'o');  opc = None | (join_cid|None, leave_cid|None, breakup_code|None);
+    extra = None | ((path, value), ...): fields of the VAM set to a given value of their ASN.1 domain before encoding
+    (path as in gen_vru.VamAsn, below the VAM root; value = ENUMERATED identifier | ('bits', int, nbits) |
+    ('alt',) for "the minimal instance of the CHOICE alternative the path ends in").  The model's `recv` line does not
+    mention them: the model gives these fields no meaning (break-up reasons travel in `opc` as their ASN.1 number)."""
+    return (sender, tuple(pos), tuple(info) if info else None, tuple(opc) if opc else None, bool(legacy),
+            _freeze(extra) if extra else None)
+
+
+def _asn_value(v):
+    if isinstance(v, tuple) and v and v[0] == "bits":
+        n = v[2]
+        return (int(v[1]).to_bytes((n + 7) // 8, "big"), n)
+    if isinstance(v, tuple) and v and v[0] == "alt":
+        return None           # minimal instance of the alternative (VamAsn.minimal with value None)
+    return v
 
 
 def build_vam(key):
     """full VAM dict for `key`, passed through the real coder (encode -> decode): what a manager really receives"""
     if key in _VAM_CACHE:
         return _VAM_CACHE[key]
-    sender, pos, info, opc, legacy = key
+    sender, pos, info, opc, legacy, extra = key
     vam = copy.deepcopy(VAMMessage().vam)
     vam["header"]["stationId"] = sender
     la, lo = pos_int(*pos)
@@ -188,6 +206,10 @@ def build_vam(key):
         if b is not None:
             oc["clusterBreakupInfo"] = {"clusterBreakupReason": BRK_NAME_BY_CODE[b], "breakupTime": 8}
         params["vruClusterOperationContainer"] = oc
+    if extra:
+        asn = gen_vru.VamAsn.get()
+        for path, value in extra:
+            vam = asn.graft(vam, {"type": "VAM"}, tuple(path), _asn_value(value))
     dec = CODER.decode(CODER.encode(vam))
     if legacy and ALLOW_LEGACY[0] and info is not None and info[2] == "c":
         # the dict form the repository's own unit tests feed (never produced by the decoder)
@@ -198,7 +220,7 @@ def build_vam(key):
 
 
 def vam_line(key):
-    sender, pos, info, opc, _ = key
+    sender, pos, info, opc = key[:4]
     o = lambda v: "-" if v is None else str(v)
     i = "-" if info is None else f"{o(info[0])},{info[1]},{info[2]}"
     c = "-" if opc is None else ",".join(o(v) for v in opc)
@@ -457,6 +479,11 @@ class Oracle:
             silent = t - self.member["last"]
             if silent >= T_CONT and (st == "P" or not o["tx"]):
                 bad.append(("leader-lost-not-detected", f"no cluster VAM for {silent} ms, state {st}, tx {o['tx']}"))
+            if silent < T_CONT and st != "P" and self.member["leader"] is not None and self.free is None:
+                # an update releases a member for ONE reason only: the leader was silent for timeClusterContinuity.  A
+                # cluster VAM of the joined cluster from its leader (through the real coder) is a heartbeat whatever
+                # else it carries ("cluster VAMs ... drive the peer's state machine")
+                bad.append(("leader-lost-too-early", f"leader's cluster VAM heard {silent} ms ago (< {T_CONT}), state {st} after update"))
         # ---- break-up heard from the leader
         if k == "upd" and self.free is not None:
             if st == "P" or (st != "I" and not o["tx"]):
@@ -778,6 +805,8 @@ def _tup(op):
         for i in (2, 3):
             if len(v) > i and v[i] is not None:
                 v[i] = tuple(v[i])
+        if len(v) > 5 and v[5] is not None:
+            v[5] = _freeze(v[5])
         op[1] = tuple(v)
     elif op[0] == "create":
         op[3] = list(op[3])
@@ -1109,7 +1138,7 @@ def summarise(vam):
     oc = p.get("vruClusterOperationContainer")
     if oc:
         opc = (oc.get("clusterJoinInfo", {}).get("clusterId"), oc.get("clusterLeaveInfo", {}).get("clusterId"),
-               BRK_BY_NAME.get(oc["clusterBreakupInfo"]["clusterBreakupReason"], 15) if "clusterBreakupInfo" in oc else None)
+               BRK_ASN.get(oc["clusterBreakupInfo"]["clusterBreakupReason"], -1) if "clusterBreakupInfo" in oc else None)
     return vam["header"]["stationId"], info, opc
 
 
